@@ -192,7 +192,7 @@ pub fn built_projects() -> &'static Vec<BuiltProject> {
     })
 }
 
-fn make_artifact_case(d: &mut Dec) -> Value {
+fn make_artifact_case(d: &mut Dec, ctx: &mut Ctx) -> Value {
     let bp = built_projects();
     if bp.is_empty() {
         return json!({"kind":"artifact","project":"","error":"no corpus project could be built"});
@@ -202,7 +202,13 @@ fn make_artifact_case(d: &mut Dec) -> Value {
     let ui = d.below(p.units.len());
     let which_core = d.bool();
     let text = if which_core { &p.units[ui].2 } else { &p.units[ui].1 };
-    let mode = d.below(4);
+    let mut mode = d.below(4);
+    // KF-35: core_ir is not integrity-protected; while that finding is open the
+    // body of a .core file is only mutated outside core_ir
+    let protect_core_ir = which_core && ctx.gated("artifact:core-ir");
+    if protect_core_ir && mode == 0 {
+        mode = 1;
+    }
     let (mutated, desc) = if mode == 0 {
         // raw text mutation
         let mut s = text.clone();
@@ -245,7 +251,10 @@ fn make_artifact_case(d: &mut Dec) -> Value {
     } else {
         match serde_json::from_str::<Value>(text) {
             Ok(mut v) => {
-                let ps = jsonmut::paths(&v);
+                let mut ps = jsonmut::paths(&v);
+                if protect_core_ir {
+                    ps.retain(|p| !matches!(p.first(), Some(jsonmut::Step::Key(k)) if k == "core_ir"));
+                }
                 let pth = ps[d.below(ps.len())].clone();
                 let desc = jsonmut::mutate_at(&mut v, &pth, d);
                 (
@@ -356,16 +365,42 @@ impl Check for C04 {
             PhaseSpec { name: "mutate", cases: tier.pick(60_000, 1_200_000), max_bytes: 64, exhaustive: false },
             PhaseSpec { name: "nesting", cases: tier.pick(3_000, 60_000), max_bytes: 300, exhaustive: false },
             PhaseSpec { name: "artifacts", cases: tier.pick(4_000, 80_000), max_bytes: 48, exhaustive: false },
+            PhaseSpec { name: "prog", cases: tier.pick(40_000, 600_000), max_bytes: 500, exhaustive: false },
+            PhaseSpec { name: "illprog", cases: tier.pick(20_000, 300_000), max_bytes: 420, exhaustive: false },
         ]
     }
-    fn make(&self, phase: &str, _index: u64, bytes: &[u8], _ctx: &mut Ctx) -> Case {
+    fn make(&self, phase: &str, _index: u64, bytes: &[u8], ctx: &mut Ctx) -> Case {
         let mut d = Dec::new(bytes);
         match phase {
             "unicode" => Case::new(json!({"text": textgen::unicode_soup(&mut d)})),
             "tokens" => Case::new(json!({"text": textgen::token_soup(&mut d)})),
             "mutate" => Case::new(json!({"text": textgen::mutate_corpus(&mut d, corpus::sources())})),
             "nesting" => Case::new(json!({"text": nested(&mut d)})),
-            _ => Case::new(make_artifact_case(&mut d)),
+            "prog" | "illprog" => {
+                // every shape, including the ones other checks exclude because of open findings
+                let mut open = crate::gen::build::NoGates;
+                let mut cfg = crate::gen::build::GenCfg::full(if _index % 7 == 0 { 150 } else { 50 });
+                cfg.hostile_names = _index % 3 == 0;
+                cfg.focus = [
+                    crate::gen::build::Focus::None,
+                    crate::gen::build::Focus::Generics,
+                    crate::gen::build::Focus::Closures,
+                    crate::gen::build::Focus::Effects,
+                    crate::gen::build::Focus::Scopes,
+                ][(_index % 5) as usize];
+                if phase == "prog" {
+                    let p = crate::gen::build::gen_program(&mut d, cfg, &mut open);
+                    Case::new(json!({"text": crate::gen::render::render(&p), "prog": true}))
+                } else {
+                    let split = bytes.len().saturating_sub(6);
+                    let (pb, mb) = bytes.split_at(split);
+                    let mut pd = Dec::new(pb);
+                    let p = crate::gen::build::gen_program(&mut pd, cfg, &mut open);
+                    let text = crate::props::c03::inject_ill_typed(p, &mut Dec::new(mb));
+                    Case::new(json!({"text": text, "prog": true}))
+                }
+            }
+            _ => Case::new(make_artifact_case(&mut d, ctx)),
         }
     }
     fn judge(&self, phase: &str, case: &Case, ctx: &mut Ctx) -> CaseOut {
@@ -381,13 +416,16 @@ impl Check for C04 {
                 if phase == "nesting" {
                     labels.push("nesting".into());
                 }
+                if case.input["prog"].as_bool() == Some(true) {
+                    labels.push("prog".into());
+                }
                 CaseOut::pass(res.reached_typer(), key).labelled(labels)
             }
             Err((sig, detail)) => CaseOut::fail(sig, detail, key).labelled(labels),
         }
     }
     fn rule(&self) -> String {
-        "unicode/tokens: random Unicode strings and random goml token sequences; mutate: splice/truncate/duplicate/insert mutations of corpus sources (reach the typer and later stages); nesting: one or mixed syntactic forms (expr, type, pattern) nested 1..256 deep; artifacts: single-leaf JSON mutations and raw text mutations of the interface/core files of every corpus project, fed to read_core+link_cores (core) or check_package+build_package of each dependent (interface). Oracle: every entry point returns without panic/abort/stack overflow on an 8 MiB stack; Err carries >=1 error diagnostic; for single texts every diagnostic range lies in the text on char boundaries and the CLI's formatters accept them. Non-trivial = the input got past parsing and lowering (stage ok/typer/compile) or is an artifact case; distinct by hash of the text.".into()
+        "unicode/tokens: random Unicode strings and random goml token sequences; mutate: splice/truncate/duplicate/insert mutations of corpus sources (reach the typer and later stages); prog/illprog: type-directed generated programs with ALL generator gates open (also the shapes other checks exclude because of open findings, hostile identifier pools, every bias) and the same programs with one ill-typed statement injected; nesting: one or mixed syntactic forms (expr, type, pattern) nested 1..256 deep; artifacts: single-leaf JSON mutations and raw text mutations of the interface/core files of every corpus project, fed to read_core+link_cores (core) or check_package+build_package of each dependent (interface). Oracle: every entry point returns without panic/abort/stack overflow on an 8 MiB stack; Err carries >=1 error diagnostic; for single texts every diagnostic range lies in the text on char boundaries and the CLI's formatters accept them. Non-trivial = the input got past parsing and lowering (stage ok/typer/compile) or is an artifact case; distinct by hash of the text.".into()
     }
     fn assumptions(&self) -> Vec<String> {
         vec![
@@ -397,6 +435,6 @@ impl Check for C04 {
         ]
     }
     fn required_labels(&self, _tier: Tier) -> Vec<&'static str> {
-        vec!["stage:parser", "stage:typer", "stage:ok", "artifact:rejected", "nesting"]
+        vec!["stage:parser", "stage:typer", "stage:ok", "artifact:rejected", "nesting", "prog"]
     }
 }
